@@ -55,7 +55,7 @@ def cases_for(prop, tier, seed):
     T = tier == "thorough"
     k = 10 if T else 1
     if prop == "C01":
-        return (gen.fam_malformed(g, "C01-mal", 150 * k) +
+        return (gen.fam_malformed(g, "C01-mal", 150 * k) + gen.fam_rawhot(g, "C01-raw", 10) +
                 gen.fam_single_ops(g, "C01-rude", scripts=[g.malformed() for _ in range(6 * (3 if T else 1))], source="rude") +
                 gen.fam_hot(g, "C01-hot", 150 * k, malformed=True, kinds=("plain", "behavior", "replay", "async")) +
                 gen.fam_chains(g, "C01-chain", 150 * k, malformed=True))
